@@ -17,6 +17,7 @@ Abstract values (tuples):
   ("ite", c, a, b)
   ("unit",) ("unknown", why)
 """
+import re
 
 TRANSPARENT_METHODS = {"borrow", "deref", "clone", "as_ref", "to_owned", "as_str", "into", "as_vec", "to_string", "as_slice", "unwrap_ref"}
 VALUE = "dmntk_feel::values::Value::"
@@ -757,6 +758,13 @@ class Evaluator:
         none = ("v", "None", [])
         is_opt = lambda v: v[0] == "v" and v[1] in ("Some", "None")
         seq0 = self.as_seq(a0) if a0 is not None else None
+        # operators written as method calls on integers: `a.rem(60)`, `a.div(60)` (std::ops traits in scope)
+        if method in ("rem", "div", "add", "sub", "mul") and len(args) == 2 and re.search(r"core::ops::arith::(Rem|Div|Add|Sub|Mul)", callee or "") and \
+                all(x[0] == "lit" and isinstance(x[1], int) and not isinstance(x[1], bool) for x in args):
+            r = self.binop({"rem": "%", "div": "/", "add": "+", "sub": "-", "mul": "*"}[method], args[0], args[1])
+            if r[0] == "lit":
+                yield s, r
+                return
         if seq0 is not None and method in ("iter", "into_iter", "to_vec", "as_slice", "iter_mut", "cloned", "copied", "as_ref", "by_ref", "deref", "clone") and len(args) == 1:
             yield s, ("iterv", list(seq0))
         elif seq0 is not None and method == "enumerate" and len(args) == 1:
